@@ -233,6 +233,75 @@ function __fresh(){ __buf = Buffer.from([1,2,3,4,5,6,7,8,9,10]); __url = new URL
 		out.Count("family", "typed-sweep")
 		out.Count("outcome", res.kind)
 	}
+	// ---- tampering: a script replaces or deletes what one module exports before (or after) another module that depends on it is
+	// loaded, in a runtime where nothing was loaded beforehand (a bare Registry.Enable: no event loop, no console.Enable)
+	tamperVals := []string{"undefined", "null", "1", `"s"`, "({})", "[]", "function(){ throw new Error('t') }", "function(){ return {toString: function(){ throw new Error('ts') }} }",
+		"function(){ return Symbol() }", "Symbol()", "new Proxy(function(){}, {apply: function(){ throw new Error('px') }})"}
+	tamperScripts := []string{
+		`var u = require('util'); u.format = @V@; var c = require('console'); c.log('x %s', 1); c.error('y'); c.warn(); c.info({}); c.debug(1, 2)`,
+		`var u = require('util'); delete u.format; var c = require('console'); c.log('x'); c.warn('y %d', 2)`,
+		`var c = require('console'); var u = require('util'); u.format = @V@; c.log('x %s', 1); delete u.format; c.error('y')`,
+		`var u = require('node:util'); u.format = @V@; require('node:console').log('z')`,
+		`var m = require('url'); m.URL = @V@; m.URLSearchParams = @V@; new URL('http://a/b?c=d').searchParams.sort(); new URLSearchParams('a=1').toString()`,
+		`var b = require('buffer'); b.Buffer = @V@; Buffer.from('a').toString('hex'); require('buffer').Buffer`,
+		`var p = require('process'); p.env = @V@; require('process').env; Object.keys(require('process'))`,
+		`Object.defineProperty(require('util'), 'format', {get: function(){ throw new Error('g') }}); require('console').log('x')`,
+		`var u = require('util'); Object.freeze(u); u.format = @V@; require('console').log('%j', {a: 1})`,
+	}
+	for _, ts := range tamperScripts {
+		for _, tv := range tamperVals {
+			body := strings.ReplaceAll(ts, "@V@", tv)
+			bare := goja.New()
+			new(require.Registry).Enable(bare)
+			script := "(function(){ try { " + body + "; return 'ok' } catch (e) { return 'throw' } })()"
+			lib.Breadcrumb(outPath, body)
+			ch := make(chan result, 1)
+			go func() {
+				var rr result
+				func() {
+					defer func() {
+						if x := recover(); x != nil {
+							rr = result{"panic", fmt.Sprint(x)}
+						}
+					}()
+					v, err := bare.RunString(script)
+					if err != nil {
+						rr = result{"uncaught", err.Error()}
+						return
+					}
+					rr = result{v.String(), ""}
+				}()
+				ch <- rr
+			}()
+			var res result
+			select {
+			case res = <-ch:
+			case <-time.After(4 * time.Second):
+				res = result{"hang", ""}
+				hangs++
+			}
+			id := len(out.Cases)
+			desc := map[string]interface{}{"call": body, "outcome": res.kind, "runtime": "bare Registry.Enable"}
+			tags := []string{"tamper"}
+			switch res.kind {
+			case "hang":
+				out.Fail(id, "hang", desc, tags...)
+			case "panic":
+				desc["panic"] = res.msg
+				out.Fail(id, "go-panic-escaped", desc, tags...)
+			case "uncaught":
+				desc["error"] = res.msg
+				out.Fail(id, "uncatchable-error", desc, tags...)
+			}
+			out.Add("crashed", desc, true, tags...)
+			out.Count("family", "tamper")
+			out.Count("outcome", res.kind)
+			if !strings.Contains(ts, "@V@") {
+				break
+			}
+		}
+	}
+
 	for c := 0; c < n; c++ {
 		if hangs >= 3 {
 			out.Notes = append(out.Notes, "stopped early: 3 calls hung")
